@@ -359,6 +359,14 @@ def main(tier, replay=None):
                 scn = build_scenario(j["source"])
                 first.append(scenario_fingerprint(scn))
                 second.append(scenario_fingerprint(build_scenario(j["source"])))
+                if j["source"]["kind"] == "gen" and len(first) % 4 == 0 and isinstance(j["source"]["params"].get("seed"), int):
+                    # the same seed as a NumPy integer (np.arange, rng.integers ... hand those out)
+                    sd = j["source"]["params"]["seed"]
+                    npseed = np.int64(sd) if len(first) % 8 else np.uint32(sd)
+                    alt = scenario_fingerprint(build_scenario(dict(j["source"], params=dict(j["source"]["params"], seed=npseed))))
+                    if alt != first[-1]:
+                        rep.fail("C14:numpy-integer-seed", f"generate_scenario(seed={type(npseed).__name__}({sd})) differs from seed={sd}", dict(job=j))
+                    rep.count("seed-as-numpy-integer")
                 if j["source"]["kind"] == "gen":
                     reuse = generator_object_reuse(j["source"]["params"], first[-1])
                     if reuse is not None:
